@@ -15,6 +15,7 @@ func CLI(prop string, gen func(*Run), exec Exec) {
 	out := flag.String("out", "", "output directory")
 	budget := flag.Float64("budget", 1, "multiplier for the number of generated cases")
 	replay := flag.String("replay", "", "replay file: run only its cases")
+	search := flag.Bool("search", false, "witness-search round (something already broke): favour finding one failing input fast")
 	flag.Parse()
 	if *out == "" {
 		fmt.Fprintln(os.Stderr, "usage: harness -out DIR [-seed N] [-tier T] [-budget F] [-replay FILE]")
@@ -24,6 +25,7 @@ func CLI(prop string, gen func(*Run), exec Exec) {
 		*budget = 10
 	}
 	run := NewRun(prop, *seed, *tier, *out, *budget)
+	run.Search = *search
 	if *replay != "" {
 		cs, err := ReadReplay(*replay)
 		if err != nil {
